@@ -61,5 +61,10 @@ mod proofs {
         kani::cover!(true, "AFTER: refused encoding returned");
     }
 
+    // NOTE (measured): a harness for encode_internal_f64_polynomial with CONCRETE values (+-3.0, scale 4.0) and a symbolic stale
+    // destination ran out of memory at 12 GB (208 s) and at 40 GB (515 s) during propositional reduction: the function goes through
+    // f64::powi(64), log2, ceil, round and `%` on doubles, which CBMC bit-blasts through its libm models. The floating-point entry
+    // points of the CKKS encoder are therefore outside the reach of this technique here (see DESIGN.md, C12).
+
     #[cfg(test)] include!("/verif/.build/playback/ckks_encoder_v.rs");
 }
